@@ -138,6 +138,47 @@ theorem C23_range_ctor_step (a b c : Int) :
 
 example : (Range.mk3 10 0 (-3)).values = [10, 7, 4, 1] ∧ (Range.mk3 10 0 (-3)).seq = [10, 7, 4, 1] := by decide
 
+/-- `occa::range(end)`: `|end|` values, counting up from 0 for `end ≥ 0` and down for `end < 0` -/
+theorem C23_range_mk1 (e : Int) (he : Fits e) :
+    (Range.mk1 e).length = (e.natAbs : Int) ∧
+    (Range.mk1 e).values = (List.range e.natAbs).map (fun (i : Nat) => if e ≥ 0 then (i : Int) else -(i : Int)) := by
+  have hs : Fits 0 := by decide
+  have h1 : Fits (1 : Int) := by decide
+  have hm1 : Fits (-1 : Int) := by decide
+  by_cases hp : e ≥ 0
+  · have hr : Range.mk1 e = ⟨0, e, 1⟩ := by unfold Range.mk1; rw [if_pos hp]
+    have hv := C23_range_values ⟨0, e, 1⟩ hs he h1 (by simp)
+    have hl := C23_range_len 0 e 1 hs he h1 (by decide)
+    rw [hr]
+    unfold Range.length Range.seq at *
+    simp only at hv hl ⊢
+    rw [hv, hl, forVals_one]
+    simp only [Int.sub_zero, List.length_map, List.length_range, hp, if_true]
+    have : e.toNat = e.natAbs := by omega
+    rw [this]
+    refine ⟨rfl, ?_⟩
+    apply List.map_congr_left
+    intro i _
+    omega
+  · have hr : Range.mk1 e = ⟨0, e, -1⟩ := by unfold Range.mk1; rw [if_neg hp]
+    have hv := C23_range_values ⟨0, e, -1⟩ hs he hm1 (by simp)
+    have hl := C23_range_len 0 e (-1) hs he hm1 (by decide)
+    rw [hr]
+    unfold Range.length Range.seq at *
+    simp only at hv hl ⊢
+    rw [hv, hl, forVals_neg 0 e (-1) (by decide)]
+    simp only [Int.neg_zero, Int.neg_neg]
+    rw [forVals_one]
+    simp only [Int.sub_zero, List.length_map, List.length_range, List.map_map, hp, if_false]
+    have : (-e).toNat = e.natAbs := by omega
+    rw [this]
+    refine ⟨rfl, ?_⟩
+    apply List.map_congr_left
+    intro i _
+    simp only [Function.comp_apply]
+    omega
+
+example : (Range.mk1 (-10)).length = 10 ∧ (Range.mk1 (-3)).values = [0, -1, -2] := by decide
 /-! ### (b) the tiled map loop visits every index exactly once -/
 
 /-- With the in-tile bound spanning the whole block step, the Serial order of the tiled map loop is
